@@ -27,13 +27,16 @@ def _toggle_ok(st, tier, every):
 
 
 def _since_toggle(st):
-    """number of run-like actions since the last toggle on the path (None: no toggle yet)"""
+    """number of run-like actions since the last toggle on the path, counted from the end of
+    exploration for a toggle made before it (None: no toggle yet): a toggle made while exploring only
+    takes effect when exploration ends, so such a path is followed to that point and `horizon` beyond"""
     n = None
-    for a in st.path:
+    for d, a in enumerate(st.path):
         if a[0] == 'toggle':
             n = 0
         elif n is not None and a[0] != 'resume':
-            n += 1
+            if st.dexp is None or d + 1 > st.dexp:
+                n += 1
     return n
 
 
@@ -270,8 +273,12 @@ def _det_job(scn_dict, depth, variant):
     env['COLUMNS'] = str(80 + 37 * variant)
     env['PYTHONPATH'] = VERIF + os.pathsep + env.get('PYTHONPATH', '')
     spec = json.dumps(dict(scenario=scn_dict, depth=depth))
-    p = subprocess.run([sys.executable, '-m', 'nvmc.detrun', spec], env=env, cwd=VERIF,
-                       capture_output=True, text=True, timeout=3600)
+    try:
+        p = subprocess.run([sys.executable, '-m', 'nvmc.detrun', spec], env=env, cwd=VERIF,
+                           capture_output=True, text=True, timeout=JOB_WATCHDOG_S)
+    except subprocess.TimeoutExpired:
+        raise core.Inconclusive('fresh-process replay of {} did not finish in {} s'.format(
+            scn_dict.get('name'), JOB_WATCHDOG_S))
     for line in p.stdout.splitlines():
         if line.startswith('KEYS '):
             return json.loads(line[5:])
@@ -568,9 +575,37 @@ def extra_jobs(prop, tier, scns, results):
     return jobs
 
 
+JOB_WATCHDOG_S = int(os.environ.get('NVMC_JOB_WATCHDOG', '900'))
+
+
 def _any_job(kind, *args):
+    """dispatch; the product-run / checkpoint jobs (which call run() outside Engine.apply) are guarded
+    by their own watchdog: a run that does not come back is reported as a violation, not waited for"""
+    import signal
     import warnings
     warnings.simplefilter('ignore')
+    if kind == 'explore':
+        return _job(*args)
+    if kind in ('pair', 'threeways', 'checkpoints'):
+        def on_alarm(signum, frame):
+            raise smc.Hang('job exceeded {} s'.format(JOB_WATCHDOG_S))
+        signal.signal(signal.SIGALRM, on_alarm)
+        signal.alarm(JOB_WATCHDOG_S)
+        try:
+            return _any_job_inner(kind, *args)
+        except smc.Hang as e:
+            prop = args[0] if kind == 'checkpoints' else ('C11' if kind == 'pair' else 'C12')
+            scn_d = args[1] if kind == 'checkpoints' else args[0]
+            return dict(violations=[Violation(
+                prop, 'hang:{}-job'.format(kind), 'scenario {}: {} ({})'.format(
+                    scn_d.get('name'), e, kind), dict(kind=kind, scenario=scn_d))],
+                label=kind, scenario=scn_d.get('name'), depth=0, final=None)
+        finally:
+            signal.alarm(0)
+    return _any_job_inner(kind, *args)
+
+
+def _any_job_inner(kind, *args):
     if kind == 'explore':
         return _job(*args)
     if kind == 'pair':
